@@ -1,6 +1,7 @@
 import RModel.Base.Lit
 import RModel.Model.Exec
 import RModel.Lemmas.Exec
+import RModel.Lemmas.ExecRollback
 /-
   C11 — A crash at any instant leaves a consistent, usable workspace.   (property theorems only)
 
@@ -158,6 +159,26 @@ theorem lock_states_acquirable (l0 : Option Node) (t : Tree) (h : LockStates l0 
   · rw [h]
   · rw [h]; simp
 
+/-- leftover_temp_never_blocks: in the shape the code has (`File::create`: truncating open of the temp file), a file
+    that a killed process left at the temp name — empty, half written, complete — never makes a later content edit of the
+    same target fail: from any quiet state the atomic replace ends NORMALLY (no error, no crash), the target holds the
+    complete new content and the temp name is free again.  For all trees, paths and contents. -/
+theorem leftover_temp_never_blocks (f : Path) (c c' x : Bytes) (m mx : Nat) (hne : tmpPath f ≠ f) (s : St)
+    (hq : Quiet s) (hl : lookup s.t (tmpPath f) = some (.file x mx)) (hf : lookup s.t f = some (.file c m))
+    (hp : parentOk s.t (tmpPath f) = .ok ()) :
+    ∃ s', replaceFileX false f c' m s = .ok () s' ∧ lookup s'.t f = some (.file c' m) ∧
+      lookup s'.t (tmpPath f) = none := by
+  have h := safeQ_replaceFile_leftover f c c' x m mx hne s hq ⟨hl, hf, hp⟩
+  cases hx : replaceFileX false f c' m s with
+  | ok a s' => rw [hx] at h; exact ⟨s', rfl, h.2.2⟩
+  | err e s' => rw [hx] at h; exact absurd h.2.2 id
+  | crash s' => rw [hx] at h; exact absurd h id
+
+/-- the code opens the temp file with a truncating create and names it per process: either property alone already keeps a
+    killed run's leftover from blocking the next one (`leftoverBlocks` is false); read from the source by
+    translate/execflags.py — a fixed name together with `create_new` (seeded/C11d) flips this -/
+theorem temp_file_flags : ExecFlags.tempOpenExclusive = false ∧ ExecFlags.tempNamePerPid = true := by decide
+
 /-- the flags the model is built with at the code as it is (read from the source by translate/execflags.py) -/
 theorem lock_flags : ExecFlags.publishByLink = true ∧ ExecFlags.emptyLockIsStale = true := by decide
 
@@ -221,6 +242,16 @@ theorem lock_link_example :
   decide +kernel
 
 set_option maxRecDepth 100000 in
+/-- what `create_new` on a FIXED temp name does to the next run (the shape of seeded/C11d): the leftover of a run killed
+    right after the temp file was created (here: the empty file) makes the same edit fail with EEXIST — for ever, since the
+    failing call did not create the file and does not remove it -/
+theorem leftover_temp_blocks_with_create_new :
+    outcome (run (replaceFileX true [b!"a.txt"] b!"bar" 0o644)
+      ([ ([b!"a.txt"], .file b!"foo" 0o644), (tmpPath [b!"a.txt"], .file [] 0o644) ]) .none) = .fail ∧
+    outcome (run (replaceFileX false [b!"a.txt"] b!"bar" 0o644)
+      ([ ([b!"a.txt"], .file b!"foo" 0o644), (tmpPath [b!"a.txt"], .file [] 0o644) ]) .none) = .ok := by decide +kernel
+
+set_option maxRecDepth 100000 in
 /-- finding undo_inplace_truncation: `undo` rewrites user files in place; SIGKILL right after `openw a.txt` (call 0)
     leaves `a.txt` EMPTY — neither the old nor the new content -/
 theorem C11_witness_undo_inplace : ExecFlags.undoViaTemp = false →
@@ -243,7 +274,7 @@ set_option maxRecDepth 100000 in
 theorem content_edit_atomic_example :
     (sortedFiles plA.hunks).Nodup ∧
     lookup (run (bodyApply plA) tA (.crashMid 6)).st.t [b!"a.txt"] = some (.file b!"foo" 0o644) ∧
-    lookup (run (bodyApply plA) tA (.crashMid 6)).st.t [b!"a.PID.renamify.tmp"] = some (.file b!"b" 0o644) := by
+    lookup (run (bodyApply plA) tA (.crashMid 6)).st.t (tmpPath [b!"a.txt"]) = some (.file b!"b" 0o644) := by
   decide +kernel
 
 end C11
